@@ -460,7 +460,55 @@ func runC20(s *kernel.Sim) {
 	s.Go("director", func() {
 		defer func() { done = true }()
 		for i := 0; i < nops && !s.Violated(); i++ {
-			switch op := s.TaskChoose("director", "op", 13); {
+			switch op := s.TaskChoose("director", "op", 14); {
+			case op == 13 && running: // a forced update is still inside a slow pool when the next tick fires
+				if !drainWaits(i) {
+					return
+				}
+				hold := make(chan struct{})
+				sp.Lock()
+				sp.RefuseOverlap = true // what the pool does with a keep-alive of a node whose previous one it is still processing
+				if sp.Hold == nil {
+					sp.Hold = map[string]chan struct{}{}
+				}
+				sp.Hold["Update"] = hold
+				sp.Unlock()
+				forced := make(chan error, 1)
+				waits++
+				s.GoBG(fmt.Sprintf("forcer%d", waits), func() {
+					ctx, cancel := context.WithCancel(s.Ctx)
+					defer cancel()
+					forced <- a.UpdatePeers(ctx, sp)
+				})
+				// (the pool takes between a third of an interval and a bit more than one: at least one tick fires meanwhile when it is more)
+				s.Sleep("director", interval/3+time.Duration(s.TaskChoose("director", "holdthirds", 4))*interval/3)
+				close(hold)
+				s.Sleep("director", time.Millisecond)
+				settle()
+				var ferr error
+				select {
+				case ferr = <-forced:
+				default:
+					s.Violate("forced_update", "a forced update does not return", "#%d: the pool answered it", i)
+					return
+				}
+				if ferr != nil {
+					s.Violate("forced_update", "a forced update of a running agent fails at a healthy pool", "#%d: UpdatePeers returned %v", i, ferr)
+					return
+				}
+				s.Sleep("director", interval+interval/2)
+				settle()
+				sp.Lock()
+				refused := sp.Refused
+				sp.Unlock()
+				// is the loop still there?  (asked in a way that does not depend on how fast anything is scheduled: a
+				// running agent refuses to be started again)
+				serr := a.Start(sp)
+				s.TaskLog("director", "#%d forced update overlapping the tick: pool refused %d overlapping keep-alives so far; Start now -> %v", i, refused, serr)
+				if serr != agent.ErrAlreadyStarted {
+					s.Violate("forced_update", "a forced update that is still being answered when the next tick fires ends the keep-alive loop", "#%d: the pool is healthy (it refused %d keep-alives, all of them the agent's own, sent while its previous one was still being answered), nobody stopped the agent, but it is not running any more: Start returned %v instead of refusing", i, refused, serr)
+					return
+				}
 			case op <= 2: // Start (fresh, again while running, or with the pool failing at connect)
 				failConnect := !running && s.TaskChoose("director", "failconnect", 4) == 0
 				if failConnect {
